@@ -302,7 +302,9 @@ class n0xml:
         xpath: typing.Union[str, list],
         root_xpath: typing.Union[str, list] = [],
     ) -> tuple:
-        found = self.findall(xpath, root_xpath, find_first=True)
+        # the complete search: with a '..' step the early exit of find_first=True can stop
+        # at a node that the complete search discards when a later sibling breaks the loop
+        found = self.findall(xpath, root_xpath)
         if found:
             return found[0]  # tuple(list, dict('value':, attrib':???)/str)
         else:
@@ -312,7 +314,7 @@ class n0xml:
         self,
         xpath: typing.Union[str, list],
     ) -> typing.Union[str, None]:
-        found = self.findall(xpath, [], find_first=True)
+        found = self.findall(xpath, [])  # complete search, see findfirst
         if found:
             return f"/{'/'.join(found[0][0])}"
         else:
